@@ -26,8 +26,10 @@ structure ColForm (σ : Type) where
   lineOK : ∀ ap s, ok ap s → LineOK (str s)
   norefs : ∀ s, (bp s).refs = []
   build : ∀ ap s, ok ap s → buildColumn [] (bp s) = .ok (col s)
-  render : ∀ (ap : Bool) (ts : List Table) (ti ci : Nat) (s : σ), ok ap s →
-    Dbml.renderColumn { tables := ts, allowProps := ap } ti ci (col s) = .ok (str s)
+  /-- in any database that hosts no reference inline -/
+  render : ∀ (ap : Bool) (ts : List Table) (refs : List Ref) (ti ci : Nat) (s : σ), ok ap s →
+    (∀ r ∈ refs, r.inline = false) →
+    Dbml.renderColumn { tables := ts, refs := refs, allowProps := ap } ti ci (col s) = .ok (str s)
 
 variable {σ : Type}
 
@@ -306,7 +308,7 @@ theorem ColForm.renderDb_table (F : ColForm σ) (ap : Bool) (tn : Str) (cs : Lis
       Dbml.renderColumn { tables := [F.table tn cs], allowProps := ap } 0 ci c) = .ok (cs.map F.str) :=
     range_mapM_form F.col "column position" F.str cs
       (fun ci c => Dbml.renderColumn { tables := [F.table tn cs], allowProps := ap } 0 ci c)
-      (fun i s hs => F.render ap _ 0 i s (hcs s hs))
+      (fun i s hs => F.render ap _ [] 0 i s (hcs s hs) (by simp))
   have hbody : Dbml.indent4 (joinNL (cs.map F.str)) ++ ['\n'] = F.text cs := by
     rw [F.text_flatMap]
     apply indent4_lines
